@@ -28,6 +28,9 @@ BOUNDS = {'quick': {'max_specified': 2}, 'thorough': {'max_specified': 6}}
 SECTIONS = ['lua', 'gfx', 'gff', 'map', 'sfx', 'music']
 CHOICES = ['none', 'p8', 'png', 'empty']
 OUT_STATES = ['absent-p8', 'absent-png', 'existing-p8', 'existing-png']
+# further states of an existing OUT, used by the 'outstates' family: a .p8 whose label section is all colour 0 (a label is a
+# label whatever it shows), a .p8 without a label section
+MORE_OUT_STATES = ['existing-p8-blacklabel', 'existing-p8-nolabel']
 
 
 def fills(variant):
@@ -111,13 +114,15 @@ class Env(object):
             b''.join(r.encode() + b'\n' for r in rc.music_rows(fa['music'])))
         open(os.path.join(self.d, 'notacart.txt'), 'wb').write(b'hello')
         self.prev_p8 = ref_p8(self.f['prev-p8'], CODE['prev-p8'], label=self.label_p8)
+        self.prev_p8_black = ref_p8(self.f['prev-p8'], CODE['prev-p8'], label=bytes(0x2000))
+        self.prev_p8_nolabel = ref_p8(self.f['prev-p8'], CODE['prev-p8'])
         self.prev_png = ref_png(self.f['prev-png'], CODE['prev-png'], self.rows)
 
     def close(self):
         shutil.rmtree(self.d, ignore_errors=True)
 
     def prepare_out(self, state):
-        ext = '.p8' if state.endswith('p8') else '.p8.png'
+        ext = '.p8' if ('-p8' in state) else '.p8.png'
         out = os.path.join(self.d, self.outbase + ext)
         for e in ('.p8', '.p8.png'):
             p = os.path.join(self.d, self.outbase + e)
@@ -126,6 +131,10 @@ class Env(object):
         before = None
         if state == 'existing-p8':
             before = self.prev_p8
+        elif state == 'existing-p8-blacklabel':
+            before = self.prev_p8_black
+        elif state == 'existing-p8-nolabel':
+            before = self.prev_p8_nolabel
         elif state == 'existing-png':
             before = self.prev_png
         if before is not None:
@@ -206,7 +215,8 @@ def _run_build(env, assign, state, res, out, before, relative, tool):
     except Exception as e:
         res.violation('C13|out-unreadable|out=%s' % state, 'independent reader rejects OUT after build %r: %r' % (args[2:], e), case)
         return
-    prev = {'existing-p8': 'prev-p8', 'existing-png': 'prev-png'}.get(state)
+    prev = {'existing-p8': 'prev-p8', 'existing-png': 'prev-png', 'existing-p8-blacklabel': 'prev-p8',
+            'existing-p8-nolabel': 'prev-p8'}.get(state)
     for sec, ch in zip(SECTIONS, assign):
         if sec == 'lua':
             if ch in ('p8', 'png', 'luafile', 'sparse'):
@@ -247,6 +257,11 @@ def _run_build(env, assign, state, res, out, before, relative, tool):
     if state == 'existing-p8':
         if lab[1] != env.label_p8:
             res.violation('C13|label|p8', 'build %r: the label section of the existing OUT was not kept' % (args[2:],), case)
+    if state == 'existing-p8-blacklabel' and lab[1] != bytes(0x2000):
+        res.violation('C13|label|p8-black', 'build %r: the existing OUT had a __label__ section (all colour 0); after the build it %s' % (
+            args[2:], 'has none' if lab[1] is None else 'holds other pixels'), case)
+    if state == 'existing-p8-nolabel' and lab[1] is not None and any(lab[1]):
+        res.violation('C13|label|p8-none', 'build %r: the existing OUT had no label; after the build it has one with pixels' % (args[2:],), case)
     res.outcome((state, sum(1 for c in assign if c != 'none')))
 
 
@@ -314,7 +329,7 @@ def shards(tier, seed):
     n = 32 if tier == 'quick' else 128
     items = [('assign', tier, k, n) for k in range(n)]
     items += [('luafile', tier), ('errors', tier), ('resave', tier), ('sparse', tier), ('relpaths', tier),
-              ('names', tier, 'dotted'), ('names', tier, 'odd')]
+              ('names', tier, 'dotted'), ('names', tier, 'odd'), ('outstates', tier)]
     return items
 
 
@@ -338,6 +353,12 @@ def run_shard(item):
                 for other in itertools.product(['none', 'p8', 'empty'], repeat=2):
                     assign = ['luafile', other[0], 'none', other[1], 'none', 'none']
                     run_build(env, assign, state, res)
+        elif item[0] == 'outstates':
+            for state in MORE_OUT_STATES:
+                for assign in (['none'] * 6, ['p8', 'none', 'png', 'none', 'empty', 'none'], ['luafile', 'png', 'none', 'p8', 'none', 'sparse'],
+                               ['png', 'p8', 'png', 'p8', 'png', 'p8'], ['none', 'p8', 'none', 'empty', 'none', 'none'], ['empty'] * 6):
+                    run_build(env, assign, state, res)
+            res.sample({'outstates': MORE_OUT_STATES})
         elif item[0] == 'names':
             for state in OUT_STATES:
                 for assign in (['none'] * 6, ['p8', 'none', 'png', 'none', 'empty', 'none'], ['luafile', 'png', 'none', 'p8', 'none', 'sparse'],
